@@ -60,3 +60,7 @@ def run_shared(prog: Program, run: Run, prop: str) -> None:
     run.rule(f"{prop}.G5", "absent values are tested by identity, not truthiness, in the anchored "
              "code (0, 0.0, '' and b'' are values)", floor=0)
     common.g5_absence_by_truthiness(prog, run, f"{prop}.G5", sc)
+    run.rule(f"{prop}.G11", "the description is read-only at use time: no en-/decoding, "
+             "conversion or query method of a parsed class changes its own data in place",
+             floor=0)
+    common.g11_description_not_mutated(prog, run, f"{prop}.G11", sc)
